@@ -113,7 +113,9 @@ func runProperty(spec *PropSpec, repo, tier string, writeEvidence bool) int {
 	}
 	eng.findings = loadFindings(filepath.Join(root, "known_findings.jsonl"))
 	scratch := scratchDir()
-	defer os.RemoveAll(scratch)
+	if os.Getenv("VERIF_KEEP_SCRATCH") == "" {
+		defer os.RemoveAll(scratch)
+	}
 	timeout := 10
 	all := false
 	if tier == "thorough" {
@@ -169,6 +171,7 @@ func runProperty(spec *PropSpec, repo, tier string, writeEvidence bool) int {
 	var funcsUnder []string
 	vacuity := map[string]string{}
 	perFuncCount := map[string]int{}
+	replays := 0
 	generated := map[string]bool{}
 	for _, r := range results {
 		for _, o := range r.Obligations {
@@ -251,6 +254,11 @@ func runProperty(spec *PropSpec, repo, tier string, writeEvidence bool) int {
 				}
 				known = append(known, fmt.Sprintf("KNOWN-FINDING: property=%s %s", spec.ID, f.What))
 				continue
+			}
+			// try to confirm with a concrete run of the real function (bounded number of replays per run)
+			if o.Result != nil && replays < 4 && os.Getenv("VERIF_NO_REPLAY") == "" {
+				replays++
+				o.Result.Replay = eng.replayObligation(scratch, r, o)
 			}
 			violations = append(violations, reportViolation(root, spec.ID, o.Name, o.Text, o.Result, r))
 		}
